@@ -7,7 +7,7 @@ CHECKS = {
         'with the C02 Router model: a bus call publishes at most once, exactly once iff it succeeds, on the generated topic, carrying name + payload + caller context, nothing on an earlier '
         'error; a handler is invoked iff the names match (and the payload decodes), with the decoded value (= the value sent, under the C16 round-trip law); a group calls the matching '
         'handlers in registration order and nothing after the first failure matters; unknown types are settled per AckOnUnknownEvent (commands: Ack); error => Nack unless '
-        'AckCommandHandlingErrors, Unmarshal error and panic always Nack; the handler context exposes the consumed message; exactly one Router settle; registration (AddHandlers / AddHandler / AddHandlersToRouter / AddHandlersGroup, config and deprecated processors) puts exactly one router handler per handler of the longest registrable prefix on the Router, named HandlerName() / the group name, on the generated topic with its own subscriber, a duplicate batch or refused group changes nothing; published payloads are owned by their message (heap model: no later Send/Publish affects the bytes of an earlier published message, no two share a buffer; observed by re-reading every published message after the whole scenario and by consuming late); the marshaler call discipline (one Marshal per Send, NameFromMessage before Unmarshal, Unmarshal only on a name match into a fresh object, Handle on the decoded object). Tied to the code on every run: '
+        'AckCommandHandlingErrors, Unmarshal error and panic always Nack; the handler context exposes the consumed message; exactly one Router settle; registration (AddHandlers / AddHandler / AddHandlersToRouter / AddHandlersGroup, config and deprecated processors) puts exactly one router handler per handler of the longest registrable prefix on the Router, named HandlerName() / the group name, on the generated topic with its own subscriber, a duplicate batch or refused group changes nothing; published payloads are owned by their message (heap model: no later Send/Publish affects the bytes of an earlier published message, no two share a buffer; observed by re-reading every published message after the whole scenario and by consuming late); names are invariant under the pointer depth of the value (model of name.go: FullyQualifiedStructName / StructName / NamedStruct; values sent through 0..3 pointers, generic handlers instantiated at T and *T, the name functions called directly); the marshaler call discipline (one Marshal per Send, NameFromMessage before Unmarshal, Unmarshal only on a name match into a fresh object, Handle on the decoded object). Tied to the code on every run: '
         'random scenarios drive the REAL CommandBus/EventBus and Command/Event/EventGroup processors (config and deprecated constructors, JSON, Protobuf and gogo-Protobuf marshalers with four name '
         'generators, the deprecated Facade) inside a real Router with scripted subscribers/publishers, all deliveries of a scenario in flight together; every per-delivery / per-call trace is compared with the '
         'model and judged by the proved acceptors.'),
